@@ -1,6 +1,44 @@
-(* C08 - placeholder until Model/Alias.v and its proofs land. *)
-From Coq Require Import List.
-From BB Require Import Base.Names.
-Theorem C08_placeholder : forall l, NoDup (uniquify l).
-Proof. exact uniquify_NoDup. Qed.
-Print Assumptions C08_placeholder.
+(* C08 - forging, output and queries are read-only and repeatable.
+   Two layers: (1) in the functional model every observation leaves the store unchanged and commutes with any
+   interleaving of observations - the model is tied to the implementation by the correspondence check, so an
+   implementation that mutated state in a read-only call would diverge from it; (2) the effect table
+   (alias/table.json -> Model/AliasTable.v, checked against the real objects by harness/alias.py): every
+   read-only operation writes only validation caches that no observation reads, hence the frame theorem applies.
+   Partial: aliasing outside the container schema cannot be exhibited by the model. *)
+From Coq Require Import String List Bool.
+From BB Require Import Model.AliasTable Model.Alias Model.Interp Proofs.AliasFacts Proofs.InterpFacts.
+Import ListNotations.
+
+Theorem C08_observation_pure : forall st o, is_observation o = true -> fst (exec st o) = st.
+Proof. exact observation_pure. Qed.
+
+Theorem C08_repeatable_in_model : forall st os o,
+  forallb is_observation os = true ->
+  snd (exec (fold_left (fun s x => fst (exec s x)) os st) o) = snd (exec st o).
+Proof. exact observations_commute. Qed.
+
+Theorem C08_readonly_rows : forall r, In r readonly_ops -> readonly_ok r = true.
+Proof. exact readonly_rows. Qed.
+
+Theorem C08_interleavings : forall (V A : Type) recv (tr : list (@event V)) (o : @heap V -> A),
+  Forall respects tr ->
+  Forall (fun e => exists rname ws, In (rname, recv, ws) readonly_ops /\ ev_writes e = src_cells ws) tr ->
+  depends_only_on o (src_cells (observed recv)) ->
+  forall h, o (run_trace tr h) = o h.
+Proof. intros V A. exact (@readonly_interleavings V A). Qed.
+
+Theorem C08_frame : forall (V A : Type) (tr : list (@event V)) (o : @heap V -> A) reads,
+  Forall respects tr -> depends_only_on o reads ->
+  Forall (fun e => disjointb (ev_writes e) reads = true) tr ->
+  forall h, o (run_trace tr h) = o h.
+Proof. intros V A. exact (@frame_trace V A). Qed.
+
+Theorem C08_table_scoped : well_scoped = true.
+Proof. exact table_well_scoped. Qed.
+
+Print Assumptions C08_observation_pure.
+Print Assumptions C08_repeatable_in_model.
+Print Assumptions C08_readonly_rows.
+Print Assumptions C08_interleavings.
+Print Assumptions C08_frame.
+Print Assumptions C08_table_scoped.
